@@ -42,6 +42,7 @@ type Engine struct {
 	srcHash    map[string]string
 	overlay    map[string][]byte
 	ghostHeaps map[string]string
+	special    map[string]*specialisation
 }
 
 type kindType struct {
@@ -159,7 +160,70 @@ func loadEngine(repo, verif string) (*Engine, error) {
 		}
 		e.specs.parseSpecText(spec.file, spec.pkg, string(data))
 	}
+	e.buildSpecialisations()
 	return e, nil
+}
+
+// specialisation: a function taking function parameters, verified once per call site with
+// the parameters bound to the statically known callees (DESIGN §2.3 "call-site specialisation").
+type specialisation struct {
+	key    string // display key: gojq.binopTypeSwitch[any]@funcOpAdd
+	fn     *ssa.Function
+	caller *ssa.Function
+	con    *Contract
+	bound  map[ssa.Value]*ssa.Function
+}
+
+func (e *Engine) buildSpecialisations() {
+	e.special = map[string]*specialisation{}
+	for full, con := range e.specs.Contracts {
+		i := strings.Index(con.Key, "@")
+		if i < 0 || con.Pkg == "" {
+			continue
+		}
+		short := pkgShort(con.Pkg)
+		fn := e.funcs[short+"."+con.Key[:i]]
+		caller := e.funcs[short+"."+con.Key[i+1:]]
+		if fn == nil || caller == nil {
+			continue // reported as "function not found" by the check
+		}
+		sp := &specialisation{key: short + "." + con.Key, fn: fn, caller: caller, con: con, bound: map[ssa.Value]*ssa.Function{}}
+		for _, b := range caller.Blocks {
+			for _, in := range b.Instrs {
+				call, ok := in.(*ssa.Call)
+				if !ok || call.Call.StaticCallee() != fn {
+					continue
+				}
+				for ai, a := range call.Call.Args {
+					if ai >= len(fn.Params) {
+						break
+					}
+					if f := staticFuncValue(a); f != nil {
+						sp.bound[fn.Params[ai]] = f
+					}
+				}
+			}
+		}
+		e.special[sp.key] = sp
+		e.funcs[sp.key] = fn
+		_ = full
+	}
+}
+
+// staticFuncValue: the function a function-typed SSA value statically denotes, if any.
+func staticFuncValue(v ssa.Value) *ssa.Function {
+	switch x := v.(type) {
+	case *ssa.Function:
+		return x
+	case *ssa.MakeClosure:
+		if len(x.Bindings) == 0 {
+			return x.Fn.(*ssa.Function)
+		}
+		return x.Fn.(*ssa.Function)
+	case *ssa.ChangeType:
+		return staticFuncValue(x.X)
+	}
+	return nil
 }
 
 func (e *Engine) kindTypes() []kindType       { return e.kinds }
@@ -354,4 +418,21 @@ func (e *Engine) tryResolveType(pkg *types.Package, text string) (t types.Type, 
 		}
 	}()
 	return e.resolveType(pkg, text), nil
+}
+
+// relFile: the source file of a function relative to the repository root.
+func (e *Engine) relFile(fn *ssa.Function) string {
+	f := fn
+	for f.Parent() != nil {
+		f = f.Parent()
+	}
+	pos := e.fset.Position(f.Pos())
+	if !f.Pos().IsValid() && f.Syntax() != nil {
+		pos = e.fset.Position(f.Syntax().Pos())
+	}
+	name := pos.Filename
+	if i := strings.LastIndex(name, "/repo/"); i >= 0 {
+		return name[i+6:]
+	}
+	return strings.TrimPrefix(name, e.repo+"/")
 }
